@@ -1,0 +1,61 @@
+//go:build verif
+
+// Contracts for the deductive checks in /verif (comment-only; never compiled into fzf).
+// See /verif/DESIGN.md.
+package tui
+
+// ---------------------------------------------------------------- keyboard input decoding (C14)
+// escSequence decodes one escape sequence from the bytes read so far.  Whatever bytes arrive - truncated,
+// unknown or hostile sequences - it never indexes outside the buffer and reports a size within it.
+//@ func LightRenderer.escSequence
+//@ property C14
+//@ deadreturns 1 -- the `len(r.buffer) < 6` test in the "1;4" branch repeats a test made a few lines above
+//@ requires r != nil && sz != nil && 0 <= *sz && *sz <= len(r.buffer)
+//@ modifies r.buffer, *sz, r.clicks, r.prevDownTime, r.clicks[len(r.clicks):cap(r.clicks)]
+//@ ensures 0 <= *sz
+//@ ensures *sz <= len(r.buffer)
+// the buffer is the old one, possibly without its first byte (ESC ESC ...)
+//@ ensures r.buffer.arr == old(r.buffer.arr) && r.buffer.off + len(r.buffer) == old(r.buffer.off + len(r.buffer)) && r.buffer.off + cap(r.buffer) == old(r.buffer.off + cap(r.buffer)) && len(r.buffer) >= old(len(r.buffer)) - 1
+//@ ensures (fresh(r.clicks) || (r.clicks.arr == old(r.clicks.arr) && r.clicks.off == old(r.clicks.off) && cap(r.clicks) == old(cap(r.clicks)) && len(r.clicks) >= old(len(r.clicks))))
+
+//@ func LightRenderer.mouseSequence
+//@ property C14
+//@ requires r != nil && sz != nil && 0 <= *sz && *sz <= len(r.buffer)
+//@ modifies *sz, r.clicks, r.prevDownTime, r.clicks[len(r.clicks):cap(r.clicks)]
+//@ ensures 0 <= *sz && *sz <= len(r.buffer) && r.buffer == old(r.buffer)
+//@ ensures (fresh(r.clicks) || (r.clicks.arr == old(r.clicks.arr) && r.clicks.off == old(r.clicks.off) && cap(r.clicks) == old(cap(r.clicks)) && len(r.clicks) >= old(len(r.clicks))))
+
+//@ func EventType.Byte
+//@ wrap byte uint8
+//@ func Key
+//@ func AltKey
+//@ func CtrlAltKey
+//@ func atoi trusted
+
+// Reading raw bytes: on success at least one byte is appended to what was there; on failure nil is returned.
+//@ func LightRenderer.getch trusted
+//@ ensures 0 <= r0 && r0 <= 255
+//@ func LightRenderer.Close trusted
+//@ func EventType.Int
+//@ func LightRenderer.getBytesInternal
+//@ property C14
+//@ requires r != nil
+//@ modifies buffer[len(buffer):cap(buffer)]
+//@ ensures r1 == nil ==> len(r0) > len(buffer) && (fresh(r0) || (r0.arr == buffer.arr && r0.off == buffer.off && cap(r0) == cap(buffer)))
+//@ ensures r1 != nil ==> r0 == nil
+//@ loop 1
+//@   invariant len(buffer) > old(len(buffer)) && (fresh(buffer) || (buffer.arr == old(buffer.arr) && buffer.off == old(buffer.off) && cap(buffer) == old(cap(buffer))))
+//@ func LightRenderer.getBytes
+//@ property C14
+//@ requires r != nil
+//@ modifies r.buffer[len(r.buffer):cap(r.buffer)]
+//@ ensures r1 == nil ==> len(r0) > len(r.buffer) && (fresh(r0) || (r0.arr == r.buffer.arr && r0.off == r.buffer.off && cap(r0) == cap(r.buffer)))
+//@ ensures r1 != nil ==> r0 == nil
+
+// GetChar consumes the decoded bytes from the buffer when it returns - whatever was read, and also when
+// reading fails half-way through an escape sequence.
+//@ func LightRenderer.GetChar
+//@ property C14
+//@ deadreturns 1 -- `len(r.buffer) == 0` after a successful getBytes, which always appends at least one byte
+//@ requires r != nil
+//@ modifies r.buffer, r.clicks, r.prevDownTime, r.clicks[len(r.clicks):cap(r.clicks)], r.buffer[len(r.buffer):cap(r.buffer)]
